@@ -213,6 +213,8 @@ def run_shard(shard, prop):
 
                 b = eqx.tree_at(lambda p: p.params, b, b.params.at[: it["spec"]["dim"]].set(0.0))
             _one_structure(rec, prop, it, meta, b, bundle, mode, rng, T, fdt)
+            if it.get("origin") == "leaf" and mode[0] in ("init", "sigma") and mode[1] in (0.0, 0.5):
+                _integer_inputs(rec, prop, it, meta, b, mode, rng, T, fdt)
         if getattr(bundle, "mode", "arg") == "closure":
             rec.count("structures_traced_only_as_closure")
     return rec.result()
@@ -254,6 +256,55 @@ def planar_min_wtu(b, conds, n, cshape):
             return None
         out = np.fmin(out, np.where(np.isfinite(v), v, -np.inf))
     return out
+
+
+def _integer_inputs(rec, prop, it, meta, b, mode, rng, T, fdt):
+    """Elementary bijections at integer-valued points handed over as *integer-typed* arrays (or a python int for scalar
+    shapes): the methods accept any ArrayLike and leave the dtype to JAX's promotion, so value and log-determinant must be
+    those of the same numbers given as floats.  Not applied to Partial / Scan / MaskedAutoregressive (in-place writes into, or a loop
+    carry of, the caller's integer array: JAX warns / raises there, the written values are truncated - integer-typed inputs to
+    those are outside the stated properties, see DESIGN 10.3) or to restricted domains."""
+    import jax.numpy as jnp
+
+    dtag, ctag = meta["tags"]
+    ops = set(meta.get("ops", []))
+    if np.any(np.asarray(dtag) != 0) or np.any(np.asarray(ctag) != 0) or ops & {"Partial", "Scan", "MAF"} or meta["fwd_numeric"] or meta["inv_numeric"]:
+        return
+    shape, cshape = meta["shape"], meta["cond_shape"]
+    for k in range(4):
+        xi = rng.integers(-6, 7, size=shape)
+        c = None if cshape is None else jnp.asarray(rng.standard_normal(cshape).astype(fdt))
+        reps = [("int array", jnp.asarray(xi, dtype=jnp.int64 if T.x64 else jnp.int32))]
+        if shape == ():
+            reps.append(("python int", int(xi)))
+        for direction in (["transform_and_log_det"] if meta["fwd_ok"] else []) + (["inverse_and_log_det"] if meta["has_inv"] else []):
+            try:
+                v0, l0 = getattr(b, direction)(jnp.asarray(xi, dtype=fdt), c)
+            except Exception:  # noqa: BLE001 - judged by the main pass
+                continue
+            v0, l0 = np.asarray(v0, dtype=np.float64), float(l0)
+            if not (np.all(np.isfinite(v0)) and np.isfinite(l0)):
+                continue
+            for rn, xr in reps:
+                rec.evals += 1
+                rec.count("integer_typed_input_calls")
+                try:
+                    v1, l1 = getattr(b, direction)(xr, c)
+                    v1, l1 = np.asarray(v1, dtype=np.float64), float(l1)
+                except Exception as e:  # noqa: BLE001
+                    rec.violation(f"exception.{type(e).__name__}", f"{meta['name']} [{mode}]: {direction} of the {rn} {np.asarray(xi).tolist()} raised {type(e).__name__}: "
+                                  f"{str(e)[:200]}", it, mode, {"x": xi, "representation": rn})
+                    return
+                rt = 1e-9 if T.x64 else 1e-4
+                if prop == "C01":
+                    if not np.allclose(v1, v0, rtol=rt, atol=rt):
+                        rec.violation("point.integer_input", f"{meta['name']} [{mode}]: {direction} of the {rn} {np.asarray(xi).tolist()} gives {v1.tolist()} but of the same "
+                                                             f"numbers as floats {v0.tolist()}", it, mode, {"x": xi, "representation": rn})
+                        return
+                elif not abs(l1 - l0) <= rt * (1 + abs(l0)):
+                    rec.violation("logdet.integer_input", f"{meta['name']} [{mode}]: {direction} of the {rn} {np.asarray(xi).tolist()} reports log-det {l1!r} but {l0!r} for the "
+                                                          f"same numbers as floats", it, mode, {"x": xi, "representation": rn})
+                    return
 
 
 def _one_structure(rec, prop, it, meta, b, bundle, mode, rng, T, fdt):
